@@ -64,14 +64,14 @@ def gen_tasks(tier, seed):
     T = 6 if quick else 8
     grid = []
     if quick:
-        # every (mode, threshold, Newton/eigh) once; epsilon / interval / shapes / graft rotate so that every
-        # (mode, epsilon), (mode, interval), (threshold, epsilon) pair occurs over the grid
+        # every (mode, threshold, Newton/eigh) with two of the three epsilons; interval / shapes / graft rotate with the seed
         for mi, mode in enumerate(MODES):
             for ti, thr in enumerate(THRS):
                 for ei, eigh in enumerate([False, True]):
-                    k = mi * 8 + ti * 2 + ei + seed
-                    grid.append((mode, thr, EPSS[(ti + ei + mi + seed) % 3], eigh, [1, 2, 1, 3][(k + ti) % 4],
-                                 SHAPES[k % len(SHAPES)], GRAFTS[k % len(GRAFTS)]))
+                    for j in range(2):
+                        k = (mi * 8 + ti * 2 + ei) * 2 + j + seed
+                        grid.append((mode, thr, EPSS[(ti + ei + mi + seed + j) % 3], eigh, [1, 2, 1, 3][(k + ti + j) % 4],
+                                     SHAPES[k % len(SHAPES)], GRAFTS[(k // 2) % len(GRAFTS)]))
     else:
         for mode in MODES:
             for thr in THRS:
@@ -606,7 +606,7 @@ def run(ctx):
     rng = random.Random(ctx.seed)
     tasks = corpus_tasks() + gen_tasks(ctx.tier, ctx.seed) + [_ieee_task(rng)]
     ctx.cov["rule"] = (
-        "configurations: quick = every (mode, threshold, Newton/eigh) with matrix_epsilon, refresh interval, shapes (incl. 1x1 statistics, "
+        "configurations: quick = every (mode, threshold, Newton/eigh) with two of three matrix_epsilon values, refresh interval, shapes (incl. 1x1 statistics, "
         "rank-1 leaves, several blocks) and graft type rotating with the seed; thorough = full grid mode x threshold x epsilon x root x "
         "interval; per configuration random fault histories (fault kinds nan/+inf/-inf/0/1e30/1e-30/1e12/1e-12/one NaN entry/one Inf entry "
         "on one or all parameters), moderate-only histories, and in thorough all 256 subsets of 8 steps for one fault kind; corpus = the "
